@@ -332,9 +332,11 @@ func topicHistory(r *spec.Rand, idx int) {
 		}
 		out.Violation(sig, desc, map[string]interface{}{"history_index": idx, "last_ops": o})
 	}
+	// the result slices live as long as the history and are handed to every lookup again, the way the
+	// service does it (the provider has to reset them); they go into a lookup holding the previous result
+	var subs []interface{}
+	var qoss []byte
 	compare := func() bool {
-		var subs []interface{}
-		var qoss []byte
 		for _, name := range names {
 			for q := byte(0); q < 3; q++ {
 				if err := p.Subscribers([]byte(name), q, &subs, &qoss); err != nil {
@@ -395,6 +397,17 @@ func topicHistory(r *spec.Rand, idx int) {
 				return false
 			}
 			out.Count("c06.hist.ret_queries", 1)
+		}
+		// leave the slices filled if anything is subscribed at all: the next lookup starts from there
+		if len(model) > 0 {
+			for _, name := range names {
+				if hasEmptyLevel(name) {
+					continue
+				}
+				if p.Subscribers([]byte(name), 2, &subs, &qoss); len(subs) > 0 {
+					break
+				}
+			}
 		}
 		return true
 	}
@@ -473,6 +486,29 @@ func topicHistory(r *spec.Rand, idx int) {
 			return
 		}
 	}
+	// at the end everybody leaves, in a seeded order, down to the empty store
+	keys := make([]subKey, 0, len(model))
+	for kk := range model {
+		keys = append(keys, kk)
+	}
+	sort.Slice(keys, func(a, b int) bool {
+		return keys[a].sub < keys[b].sub || keys[a].sub == keys[b].sub && keys[a].filter < keys[b].filter
+	})
+	for len(keys) > 0 {
+		k := r.Intn(len(keys))
+		kk := keys[k]
+		keys = append(keys[:k], keys[k+1:]...)
+		ops = append(ops, fmt.Sprintf("unsub(%d,%q)", kk.sub, kk.filter))
+		if err := p.Unsubscribe([]byte(kk.filter), subsV[kk.sub]); err != nil {
+			fail("c06:unsubscribe-held", fmt.Sprintf("Unsubscribe(%q) of a held subscription failed: %v", kk.filter, err))
+			return
+		}
+		delete(model, kk)
+		if !compare() {
+			return
+		}
+	}
+	out.Count("c06.hist.drained_to_empty", 1)
 	out.Count("c06.hist.histories", 1)
 	out.Count("c06.hist.ops", int64(n))
 	out.Class(fmt.Sprintf("hist/n%d/subs%d/ret%d/empty%v", n/40, len(model)/4, len(retained)/4, withEmpty))
